@@ -276,10 +276,14 @@ class LoopCut:
     """inv(I) -> [(name, bool | z3 Bool)] evaluated on the current state; havoc(I) assigns the loop-modified
     state its arbitrary-iteration value (ints are havocked automatically)."""
 
-    def __init__(self, inv=None, havoc=None, ptrs=None, arrays=(), note=""):
+    def __init__(self, inv=None, havoc=None, ptrs=None, arrays=(), dead=(), cursors=None, note=""):
         self.inv, self.havoc, self.note = inv or (lambda I: []), havoc, note
         self.ptrs = ptrs or {}          # name -> fn(I) -> PV : value of a loop-carried pointer as a function of the state
         self.arrays = tuple(arrays)     # local arrays whose content the loop rewrites (havocked)
+        self.cursors = cursors or {}    # name -> (make(I) -> PV, holds(I, PV) -> bool): list cursors; invariant = type-level
+                                        # predicate ("NULL or a node of the library-owned list"), havocked by make()
+        self.dead = tuple(dead)         # pointers never read before being assigned in the body: poisoned at the loop head
+                                        # (a read of the poison is `Unsupported`, so a wrong claim cannot pass silently)
 
 
 # --------------------------------------------------------------------------------------------------------
@@ -301,6 +305,8 @@ class CInterp:
         self.loop_ord = 0
         self.inputs = []           # (name, z3 term) reported in counter-models
         self.arrays = []           # every array object created on this path
+        self.singletons = {}
+        self.enum_by_name = {}     # enum constants (header values are left symbolic unless the contract pins them)
         self.solver = Z.Solver()
         self.solver.set("timeout", 2000)
 
@@ -393,6 +399,12 @@ class CInterp:
     def pyobj(self, label, owned=0, borrowed=False, **info):
         return Mem("pyobj", label, owned=owned, borrowed=borrowed, info=info)
 
+    def singleton(self, label):
+        """None / True / False: one immortal object per path"""
+        if label not in self.singletons:
+            self.singletons[label] = self.pyobj(label, borrowed=True)
+        return self.singletons[label]
+
     # ---- memory ------------------------------------------------------------
     def bounds(self, arr, idx, what):
         if arr.n is None:
@@ -443,11 +455,15 @@ class CInterp:
         ty = decl.get("type", {}).get("desugaredQualType") or decl.get("type", {}).get("qualType", "")
         if k == "EnumConstantDecl":
             v = self.spec.enums.get(name)
-            c = Cell("int", IV(bvc(v, 32), 32, True) if v is not None else IV(self.fresh_bv(name, 32), 32, True), name)
+            if name in self.enum_by_name:
+                c = self.enum_by_name[name]
+            else:
+                c = Cell("int", IV(bvc(v, 32), 32, True) if v is not None else IV(self.fresh_bv(name, 32), 32, True), name)
+                self.enum_by_name[name] = c
         elif name.startswith("PyExc_"):
             c = Cell("PyObject *", PV(self.pyobj(name, borrowed=True)), name)
         elif name.startswith("_Py_") and name.endswith("Struct"):
-            c = Cell("PyObject", self.pyobj(name[4:-6], borrowed=True), name)
+            c = Cell("PyObject", self.singleton(name[4:-6]), name)
         elif tkind(ty)[0] == "int":
             c = Cell(ty, self.fresh_int(name, ty), name)
         elif tkind(ty)[0] == "ptr":
@@ -807,7 +823,13 @@ class CInterp:
             self.ghost["calls"].append(name)
             chk = self.spec.checks.get(name)
             if chk is not None:
-                for nm, g in chk(self, args):
+                try:
+                    goals = chk(self, args)
+                except (KeyError, AttributeError, IndexError, TypeError) as e:
+                    # the contract names a record slot / tuple item the code never produced on this path
+                    goals = [(f"call-site contract of {name}: a slot it names was not read or built by the code "
+                              f"({type(e).__name__}: {e})", False)]
+                for nm, g in goals:
                     self.oblige(nm, "post", g)
             return model(self, args, n)
         if name in self.tu:
@@ -920,6 +942,10 @@ class CInterp:
         for cell in mods:
             if cell.name in cut.ptrs:
                 cell.value = cut.ptrs[cell.name](self)
+            elif cell.name in cut.dead:
+                cell.value = None
+            elif cell.name in cut.cursors:
+                cell.value = cut.cursors[cell.name][0](self)
         for nm, g in cut.inv(self):
             self.assume(g)
         if not self.feasible():
@@ -947,6 +973,12 @@ class CInterp:
             self.oblige(f"loop #{ordn} invariant preserved: {nm}", "inv", g, where)
         # soundness of the cut: everything the body changed is covered by the contract
         for cell, hv in head_ptr.values():
+            if cell.name in cut.dead:
+                continue
+            if cell.name in cut.cursors:
+                self.oblige(f"loop #{ordn}: cursor '{cell.name}' satisfies its invariant at the end of the body", "inv",
+                            bool(cut.cursors[cell.name][1](self, cell.value)), where)
+                continue
             want = cut.ptrs[cell.name](self) if cell.name in cut.ptrs else hv
             got = cell.value
             same = isinstance(got, PV) and got.obj is want.obj and (got.obj is None or _same_off(got.off, want.off))
@@ -1109,8 +1141,11 @@ def x_build_value(I, args, n):
             raise Unsupported("BuildValue unit " + u)
     # 'N' consumes the caller's reference whether or not the call succeeds
     for u, v in zip(units, vals):
-        if u == "N" and not v.obj.borrowed:
-            v.obj.owned -= 1
+        if u == "N":
+            if v.obj.owned <= 0:
+                I.oblige(f"Py_BuildValue 'N' gives away a reference this function owns ('{v.obj.name}')", "own", False)
+            else:
+                v.obj.owned -= 1
     if I.choose(2, "Py_BuildValue fails/succeeds") == 0:
         I.ghost["err"] = Z.BoolVal(True)
         return PV(None)
@@ -1191,10 +1226,10 @@ def x_decref(xdec):
         o = p.obj
         if o.kind != "pyobj":
             raise Unsupported("DECREF of " + o.kind)
-        if o.borrowed:
-            I.oblige(f"Py_DECREF releases only references this function owns ('{o.name}' is borrowed)", "own", False)
-            return None
         if o.owned <= 0:
+            if o.borrowed:
+                I.oblige(f"Py_DECREF releases only references this function owns ('{o.name}' is borrowed)", "own", False)
+                return None
             I.oblige(f"Py_DECREF('{o.name}'): the reference is still owned here (no double release)", "own", False)
             raise PathEnd()
         o.owned -= 1
@@ -1205,10 +1240,7 @@ def x_decref(xdec):
 
 def x_incref(I, args, n):
     o = _use_obj(I, args[0], "Py_INCREF")
-    if not o.borrowed:
-        o.owned += 1
-    else:
-        o.info["extra"] = o.info.get("extra", 0) + 1
+    o.owned += 1
     return None
 
 
@@ -1422,6 +1454,38 @@ def x_py_type(I, args, n):
     return PV(I.pyobj("type", borrowed=True))
 
 
+def x_getifaddrs(I, args, n):
+    """glibc: *ifap = NULL first, then -1 on failure or 0 with the head of a library-owned list (possibly empty)"""
+    out = args[0].obj
+    if out is None or out.kind != "cell":
+        raise Unsupported("getifaddrs argument")
+    r = sys_result(I, "getifaddrs", 32, (0, 0))
+    if I.truth(I.ghost["getifaddrs"]["ok"], "getifaddrs ok"):
+        if I.choose(2, "interface list empty/non-empty") == 0:
+            out.cell.value = PV(None)
+        else:
+            out.cell.value = PV(Mem("struct", "ifaddrs#0", ctype="struct ifaddrs", fields={}, library_owned=True), 0)
+            I.ghost["records"] = 1
+    else:
+        out.cell.value = PV(None)
+    return r
+
+
+def x_new_object(label):
+    """internal callee verified under its own contract: NULL with an exception, None (new reference), or a new object"""
+    def f(I, args, n):
+        c = I.choose(3, f"{label}: fails/None/object")
+        if c == 0:
+            I.ghost["err"] = Z.BoolVal(True)
+            return PV(None)
+        if c == 1:
+            o = I.singleton("None")
+            o.owned += 1
+            return PV(o)
+        return PV(I.pyobj(label, owned=1, args=args))
+    return f
+
+
 def x_fd_result(name):
     def f(I, args, n):
         return sys_result(I, name, 32, (0, 1 << 20))
@@ -1510,6 +1574,7 @@ EXTERN = {
     "strncpy": x_strncpy, "kill": x_int_result("kill"), "sysconf": x_long_result("sysconf"),
     "PyObject_IsTrue": x_is_true, "PyUnicode_FromString": x_from_string, "PyBool_FromLong": x_pylong_fromlong,
     "psutil_PyErr_SetFromOSErrnoWithSyscall": x_set_err(), "psutil_debug": x_noop,
+    "getifaddrs": x_getifaddrs, "freeifaddrs": x_noop,
 }
 
 
